@@ -167,6 +167,12 @@ func (n *Node) setupExec(ctx context.Context) (executor.Executor, error) {
 	n.mu.Lock()
 	defer n.mu.Unlock()
 
+	// A stop request may have overtaken the launch of this node: nothing is
+	// started for a node that is already canceled.
+	if n.data.State.Status == NodeStatusCancel {
+		return nil, errNodeCanceled
+	}
+
 	ctx, fn := context.WithCancel(ctx)
 
 	n.cancelFunc = fn
@@ -334,6 +340,7 @@ func (n *Node) setup(logDir string, requestID string) error {
 
 var (
 	ErrWorkingDirNotExist = fmt.Errorf("working directory does not exist")
+	errNodeCanceled       = fmt.Errorf("canceled before the command was started")
 )
 
 func (n *Node) setupScript() (err error) {
